@@ -42,9 +42,24 @@ EXTENDS GposLayoutCommon, Kern, TLC
 \*     by the parent lookup's flag (HarfBuzz) or by the nested lookup's own flag (allsorts).
 \* Dev_MarkLigCompOutOfRange : a mark whose component number is not below the ligature's
 \*     component count is left alone (allsorts) or attached to the last component (HarfBuzz).
-\* Dev_KernMinimum / Dev_KernFmt2Base : see Kern.tla.
+\* Dev_MarkAttachedIsMark  : which glyphs the search for the "preceding base" of a MarkBase /
+\*     MarkLig lookup (and the mark tests of MarkMark, below) steps over.  OpenType: the base is
+\*     the preceding glyph that is not a mark, and what a mark is, is GDEF's business (class 3)
+\*     - reading FALSE (HarfBuzz).  allsorts additionally treats every glyph that a Mark* lookup
+\*     has attached as a mark from then on (`is_mark = true` in markbasepos etc.) - reading TRUE.
+\*     The readings differ only for glyphs that a lookup's mark coverage lists but GDEF does not
+\*     class as marks (no GDEF, no GlyphClassDef, glyph unclassified or classed as base):
+\*     base + two such marks attaches both to the base (TRUE) or only the first (FALSE).
+\*     In NO reading does GDEF decide whether a glyph can BE attached: the lookup's own mark
+\*     coverage does.  A covered glyph with a covered preceding base is attached.
+\* Dev_MarkMarkClassTest   : MarkMark attaches a mark1Coverage glyph to the preceding glyph (by
+\*     the lookup flag) if mark2Coverage lists it - OpenType's text names no glyph class test
+\*     ("none"); HarfBuzz requires the preceding glyph to be a mark ("base"); allsorts requires
+\*     both glyphs to be marks ("both"); "mark" in the sense of Dev_MarkAttachedIsMark.
+\* Dev_KernMinimum / Dev_KernFmt2Base / Dev_KernCrossStream : see Kern.tla.
 DevDefault == [pairSkip |-> FALSE, ctxSkip |-> FALSE, seqFlag |-> "nested", ligOOR |-> "none",
-               kernMin |-> "min", kernBase |-> "array"]
+               mkDyn |-> TRUE, mkmkTest |-> "both",
+               kernMin |-> "min", kernBase |-> "array", kernCross |-> "ignore"]
 
 \* ---- placements -------------------------------------------------------------
 PNone == [t |-> "N", i |-> -1, ax |-> 0, ay |-> 0, bx |-> 0, by |-> 0, r |-> FALSE]
@@ -184,13 +199,18 @@ AttachAt(D, L, s, b, j) ==
                  ELSE st.bases[CovIdx(st.bcov, gb) + 1][mr.c + 1] IN
        [s EXCEPT ![j].pl = PMark(b - 1, A, mr.a), ![j].mk = TRUE]
 
+\* is the glyph of info x a mark for the purposes of mark attachment (Dev_MarkAttachedIsMark)?
+\* x.mk starts as "GDEF class 3" (InitInfos) and is set by every attachment (AttachAt).
+CountsAsMark(D, gdef, x) == IF D.mkDyn THEN x.mk ELSE IsMarkGlyph(gdef, x.g)
+
 \* MarkBase / MarkLig: every glyph is offered to the lookup with the nearest preceding
 \* non-mark glyph as its base ("marks are anchored to the preceding base / ligature").
-RECURSIVE MarkLoop(_, _, _, _)
-MarkLoop(D, L, s, j) ==
+\* Whether the offered glyph is attached is decided by the subtables' coverages alone.
+RECURSIVE MarkLoop(_, _, _, _, _)
+MarkLoop(D, L, gdef, s, j) ==
   IF j > Len(s) THEN s
-  ELSE LET bs == {b \in 1 .. (j - 1) : ~s[b].mk} IN
-       MarkLoop(D, L, IF bs = {} THEN s ELSE AttachAt(D, L, s, Max(bs), j), j + 1)
+  ELSE LET bs == {b \in 1 .. (j - 1) : ~CountsAsMark(D, gdef, s[b])} IN
+       MarkLoop(D, L, gdef, IF bs = {} THEN s ELSE AttachAt(D, L, s, Max(bs), j), j + 1)
 
 \* MarkMark: the mark seen by the lookup flag that precedes the current one is the base mark.
 \* Two marks of one ligature attach to each other only within the same component.
@@ -201,8 +221,10 @@ MarkMarkLoop(D, L, gdef, s, j) ==
   IF j > Len(s) THEN s
   ELSE LET i == PrevSeen(FlagOf(L), gdef, s, j) IN
        MarkMarkLoop(D, L, gdef,
-                    IF /\ Sees(FlagOf(L), gdef, s[j].g) /\ i # 0 /\ s[j].mk
-                       /\ s[i].mk /\ MarkMarkCompat(s[i], s[j])
+                    IF /\ Sees(FlagOf(L), gdef, s[j].g) /\ i # 0
+                       /\ (D.mkmkTest = "both" => CountsAsMark(D, gdef, s[j]))
+                       /\ (D.mkmkTest \in {"both", "base"} => CountsAsMark(D, gdef, s[i]))
+                       /\ MarkMarkCompat(s[i], s[j])
                     THEN AttachAt(D, L, s, i, j) ELSE s,
                     j + 1)
 
@@ -315,7 +337,7 @@ ApplyLookup(D, prog, L, s) ==
   CASE L.ty = 1 -> SingleLoop(L, gdef, s, 1)
     [] L.ty = 2 -> PairLoop(D, L, gdef, s, FirstSeen(FlagOf(L), gdef, s))
     [] L.ty = 3 -> CursLoop(L, gdef, s, FirstSeen(FlagOf(L), gdef, s))
-    [] L.ty \in {4, 5} -> MarkLoop(D, L, s, 2)
+    [] L.ty \in {4, 5} -> MarkLoop(D, L, gdef, s, 2)
     [] L.ty = 6 -> MarkMarkLoop(D, L, gdef, s, 2)
     [] L.ty \in {7, 8} -> CtxLoop(D, prog, gdef, L, s, 1)
 
@@ -329,27 +351,46 @@ ApplyFeature(D, prog, s) == ApplySet(D, prog, Range(prog.feat), s)
 
 \* ---- the whole positioning step of shaping (one feature per program) -----------------
 \* The legacy kern table contributes when the font has no GPOS table, or when its GPOS has no
-\* `kern` feature; its values add to the advance adjustment like any other adjustment.
+\* `kern` feature; its with-stream values add to the advance adjustment like any other
+\* adjustment; its cross-stream values never do (an engine that applies them moves the right
+\* glyph of the pair across the line, Dev_KernCrossStream).
 UsesKernTable(prog) == Len(prog.kern) > 0 /\ (~prog.gpos \/ prog.tag # "kern")
 
 Shape(D, prog, in) ==
   LET s0 == InitInfos(prog.gdef, in)
       s1 == IF prog.gpos THEN ApplyFeature(D, prog, s0) ELSE s0
-      kv == IF UsesKernTable(prog) THEN KernRun(D, prog.kern, [j \in 1 .. Len(in) |-> in[j].g])
-            ELSE [j \in 1 .. Len(in) |-> 0] IN
-  [j \in 1 .. Len(in) |-> [s1[j] EXCEPT !.k = @ + kv[j]]]
+      gs == [j \in 1 .. Len(in) |-> in[j].g]
+      kv == IF UsesKernTable(prog) THEN KernRun(D, prog.kern, gs) ELSE [j \in 1 .. Len(in) |-> 0]
+      sh == IF UsesKernTable(prog) THEN KernShiftRun(D, prog.kern, gs) ELSE [j \in 1 .. Len(in) |-> 0] IN
+  [j \in 1 .. Len(in) |-> [s1[j] EXCEPT !.k = @ + kv[j],
+                                         !.pl = IF sh[j] = 0 THEN @ ELSE Combine(@, 0, sh[j])]]
 
 \* the choices that can matter for a program (keeps the number of alternatives small)
 HasTy(prog, T) == \E k \in 1 .. Len(prog.lookups) : prog.lookups[k].ty \in T
+\* glyphs that some Mark* lookup of the program may attach as marks / use as base marks
+MarkCovGlyphs(prog, T) ==
+  UNION {UNION {Range(prog.lookups[k].subs[m].mcov.g) : m \in 1 .. Len(prog.lookups[k].subs)} :
+           k \in {k \in 1 .. Len(prog.lookups) : prog.lookups[k].ty \in T}}
+Mark2CovGlyphs(prog) ==
+  UNION {UNION {Range(prog.lookups[k].subs[m].bcov.g) : m \in 1 .. Len(prog.lookups[k].subs)} :
+           k \in {k \in 1 .. Len(prog.lookups) : prog.lookups[k].ty = 6}}
+\* the mark readings can only matter if a covered "mark" is not a mark for GDEF
+HasNonGdefMark(prog) ==
+  prog.gpos /\ \E g \in MarkCovGlyphs(prog, {4, 5, 6}) \cup Mark2CovGlyphs(prog) : ~IsMarkGlyph(prog.gdef, g)
+
 DevsFor(prog) ==
   LET bools(c) == IF c THEN {FALSE, TRUE} ELSE {FALSE} IN
-  {[pairSkip |-> ps, ctxSkip |-> cs, seqFlag |-> sf, ligOOR |-> lo, kernMin |-> km, kernBase |-> kb] :
+  {[pairSkip |-> ps, ctxSkip |-> cs, seqFlag |-> sf, ligOOR |-> lo, mkDyn |-> md, mkmkTest |-> mt,
+    kernMin |-> km, kernBase |-> kb, kernCross |-> kc] :
      ps \in bools(prog.gpos /\ HasTy(prog, {2})),
      cs \in bools(prog.gpos /\ HasTy(prog, {7, 8})),
      sf \in IF prog.gpos /\ HasTy(prog, {7, 8}) THEN {"nested", "parent"} ELSE {"nested"},
      lo \in IF prog.gpos /\ HasTy(prog, {5}) THEN {"none", "last"} ELSE {"none"},
+     md \in IF HasNonGdefMark(prog) THEN {TRUE, FALSE} ELSE {TRUE},
+     mt \in IF HasNonGdefMark(prog) /\ HasTy(prog, {6}) THEN {"both", "base", "none"} ELSE {"both"},
      km \in IF KernHasMinimum(prog.kern) THEN {"min", "max", "ignore"} ELSE {"min"},
-     kb \in IF KernHasFmt2(prog.kern) THEN {"array", "subtable"} ELSE {"array"}}
+     kb \in IF KernHasFmt2(prog.kern) THEN {"array", "subtable"} ELSE {"array"},
+     kc \in IF UsesKernTable(prog) /\ KernHasCross(prog.kern) THEN {"ignore", "shift"} ELSE {"ignore"}}
 
 \* every conformant outcome of shaping `in` with `prog`
 Outcomes(prog, in) == {Proj(Shape(D, prog, in)) : D \in DevsFor(prog)}
